@@ -95,10 +95,68 @@ func PBPeersToPeerInfos(pbps []*Message_Peer) []*peer.AddrInfo
   props C09 C10
   requires peerAddrsTagSize >= 0
   requires all(i, 0, len(pbps), pbps[i] != nil)
-  modifies *
+  modifies Message_Peer.Addrs
   ensures len(result) == len(pbps)
   ensures all(i, 0, len(result), result[i] != nil && result[i].ID == str(pbps[i].Id) && recBounded(pbps[i]))
   loop over pbps invariant len(peers) == $key
   loop over pbps invariant all(j, 0, $key, peers[j] != nil && fresh(peers[j]) && allocated(peers[j]) && peers[j].ID == str(pbps[j].Id) && recBounded(pbps[j]))
   loop over pbps invariant all(j, 0, len(pbps), pbps[j] != nil && !fresh(pbps[j]))
+
+# ---- protocol messenger (C10, C04, C06) ------------------------------------
+# Any reply a remote can send: an arbitrary message; the decoder guarantees
+# only that repeated fields hold no nil element. ASSUMED (interface, no body).
+pred msgWF(m *Message) = all(i, 0, len(m.ProviderPeers), m.ProviderPeers[i] != nil) && all(i, 0, len(m.CloserPeers), m.CloserPeers[i] != nil)
+
+func (m MessageSender) SendRequest(ctx context.Context, p peer.ID, pmes *Message) (*Message, error)
+  trusted
+  modifies *
+  ensures imp(result1 == nil, result0 != nil && msgWF(result0) && !fresh(result0) || result1 == nil && result0 != nil && msgWF(result0))
+
+func (m MessageSender) SendMessage(ctx context.Context, p peer.ID, pmes *Message) error
+  trusted
+  modifies *
+
+func (pm *ProtocolMessenger) PutValue(ctx context.Context, p peer.ID, rec *recpb.Record) (err error)
+  props C10 C06
+  requires pm.m != nil
+  modifies *
+  ghost at before call(SendRequest): assert($arg2 != nil && $arg2.Type == Message_PUT_VALUE && $arg2.Record == rec && $arg2.Key == rec.Key && $arg1 == p)
+
+func (pm *ProtocolMessenger) GetValue(ctx context.Context, p peer.ID, key string) (record *recpb.Record, closerPeers []*peer.AddrInfo, err error)
+  props C10 C04
+  requires pm.m != nil && peerAddrsTagSize >= 0
+  modifies *
+  ensures [key-match] imp(record != nil, str(record.Key) == key && err == nil)
+  ensures [mismatch-is-error] imp(err != nil, record == nil && len(closerPeers) == 0)
+  ensures imp(err == nil, all(i, 0, len(closerPeers), closerPeers[i] != nil))
+  ghost at before call(SendRequest): assert($arg2 != nil && $arg2.Type == Message_GET_VALUE && str($arg2.Key) == key && $arg1 == p)
+
+func (pm *ProtocolMessenger) GetClosestPeers(ctx context.Context, p peer.ID, id peer.ID) (closerPeers []*peer.AddrInfo, err error)
+  props C10
+  requires pm.m != nil && peerAddrsTagSize >= 0
+  modifies *
+  ensures imp(err != nil, len(closerPeers) == 0)
+  ensures imp(err == nil, all(i, 0, len(closerPeers), closerPeers[i] != nil))
+  ghost at before call(SendRequest): assert($arg2 != nil && $arg2.Type == Message_FIND_NODE && str($arg2.Key) == id && $arg1 == p)
+
+func (pm *ProtocolMessenger) PutProviderAddrs(ctx context.Context, p peer.ID, key multihash.Multihash, self peer.AddrInfo) (err error)
+  props C10 C06
+  requires pm.m != nil && peerAddrsTagSize >= 0
+  modifies *
+  ensures [refuse-without-addrs] imp(len(self.Addrs) < 1, err != nil)
+  ghost at before call(SendMessage): assert(len(self.Addrs) >= 1 && $arg1 == p); assert($arg2 != nil && $arg2.Type == Message_ADD_PROVIDER && $arg2.Key == key && len($arg2.ProviderPeers) == 1 && $arg2.ProviderPeers[0] != nil && str($arg2.ProviderPeers[0].Id) == self.ID && recBounded($arg2.ProviderPeers[0]))
+
+func (pm *ProtocolMessenger) GetProviders(ctx context.Context, p peer.ID, key multihash.Multihash) (provs []*peer.AddrInfo, closerPeers []*peer.AddrInfo, err error)
+  props C10 C08
+  requires pm.m != nil && peerAddrsTagSize >= 0
+  modifies *
+  ensures imp(err != nil, len(provs) == 0 && len(closerPeers) == 0)
+  ensures imp(err == nil, all(i, 0, len(provs), provs[i] != nil) && all(i, 0, len(closerPeers), closerPeers[i] != nil))
+  ghost at before call(SendRequest): assert($arg2 != nil && $arg2.Type == Message_GET_PROVIDERS && $arg2.Key == key && $arg1 == p)
+
+func (pm *ProtocolMessenger) Ping(ctx context.Context, p peer.ID) (err error)
+  props C10
+  requires pm.m != nil
+  modifies *
+  ghost at before call(SendRequest): assert($arg2 != nil && $arg2.Type == Message_PING && $arg1 == p)
 @*/
